@@ -146,8 +146,11 @@ def native_sweep(contract, cases, envs=None, tries=4, seed=0, name="bounded_nati
                 break
             if r is None:
                 continue  # precondition not met by the random input
+            failed = [n for n, ok in r if ok is False]
+            unevaluated = [n for n, ok in r if ok is None]
+            if len(unevaluated) == len(r):
+                continue  # nothing could be evaluated natively on this input: no coverage, not a run
             done += 1
-            failed = [n for n, ok in r if not ok]
             if failed:
                 witness = {"case": {k_: v for k_, v in case.items() if not k_.startswith("_")}, "failed": failed, "inputs_and_outcome": detail}
                 break
